@@ -18,6 +18,9 @@ APPLY_OP_TO_UNIT = (
     "square",
     "cbrt",
 )
+# Operations where an operand without a unit is a dimensionless quantity, as for
+# the + and - operators
+STRICT_UNIT_OPS = ("add", "subtract")
 
 
 def _binary_op(op, lhs, rhs, strict=True, **kwargs):
@@ -238,7 +241,44 @@ class Array(Base):
     def _extract_units(self, args):
         return tuple(self._maybe_unit(a) for a in args)
 
+    def _reference_operand(self, args):
+        """
+        Find the first operand that carries a unit (boolean masks do not).
+        """
+        for arg in args:
+            if isinstance(arg, (tuple, list)):
+                found = self._reference_operand(arg)
+                if found is not None:
+                    return found
+            elif isinstance(arg, Quantity):
+                return self.__class__(arg)
+            elif isinstance(arg, self.__class__) and arg.dtype != bool:
+                return arg
+        return None
+
+    def _to_unit(self, arg, unit, strict):
+        """
+        Convert operands that carry a unit to ``unit``, so that numpy never combines
+        numbers expressed in different units. If ``strict``, operands without a unit
+        are dimensionless quantities.
+        """
+        if isinstance(arg, (tuple, list)):
+            return type(arg)(self._to_unit(a, unit, strict) for a in arg)
+        if isinstance(arg, Quantity) or (strict and not isinstance(arg, Base)):
+            arg = self.__class__(arg)
+        if isinstance(arg, self.__class__) and arg.dtype != bool:
+            return arg.to(unit)
+        return arg
+
     def _wrap_numpy(self, func, *args, **kwargs):
+        reference = self
+        if func.__name__ not in APPLY_OP_TO_UNIT:
+            found = self._reference_operand(args)
+            if found is not None:
+                reference = found
+                args = self._to_unit(
+                    args, reference.unit, strict=func.__name__ in STRICT_UNIT_OPS
+                )
         if isinstance(args[0], (tuple, list)):
             array_args = (
                 self._extract_arrays_from_args(args[0]),
@@ -255,7 +295,7 @@ class Array(Base):
                     **{key: a for key, a in kwargs.items() if key != "out"},
                 ).units
             else:
-                unit = self.unit
+                unit = reference.unit
 
         if "out" in kwargs:
             kwargs["out"][0].unit = unit
